@@ -311,7 +311,13 @@ fn gen_timer_once(seed: u64, o: &TimerOpts) -> Spec {
                 auto: rng.chance(1, 4),
             },
             3 if o.periodic => Cmd::Sched { node: rng.usize(n), delay: delay(&mut rng), abs: None, kind: k, slot: None, period: Some(delay(&mut rng)), auto: false },
-            4 => Cmd::SchedSource { src: 0, delay: delay(&mut rng), kind: k, slot: if rng.chance(1, 2) { Some(slot) } else { None }, period: if o.periodic && rng.chance(1, 4) { Some(delay(&mut rng)) } else { None } },
+            4 => Cmd::SchedSource {
+                src: 0,
+                delay: if rng.chance(1, 10) { 0 } else { delay(&mut rng) },
+                kind: k,
+                slot: if rng.chance(1, 2) { Some(slot) } else { None },
+                period: if o.periodic && rng.chance(1, 3) { Some(if rng.chance(1, 4) { 0 } else { delay(&mut rng) }) } else { None },
+            },
             5 if o.cancel => Cmd::Cancel { slot },
             6 if o.cancel => Cmd::DropAuto { slot },
             7 => Cmd::Event { node: rng.usize(n), kind: k },
